@@ -11,7 +11,10 @@ SPEC = {
              "SessionManager.RegisterControlConnection -> ClientRegistry.Register (control cap, evict-oldest; `ctrlx`: the registry "
              "itself with stream doubles whose Close() is a gate, so a registration can be stopped inside the Close() of its victim "
              "while others run: caps 0,1,2,5 x occupancy cap-1, cap x 2-3 threads x 1-2 registrations, all interleavings), "
-             "TunnelRegistry.Register, the slot counter at full speed (`free slot`: T goroutines acquire / hold / release through "
+             "TunnelRegistry.Register, usage update x revocation x activation at the mapping quota (`u` = RecordMappingUsage, `w` = "
+             "RevokeMapping of mapping 0; the return of GetPortMapping is a gate, so read and write-back are separate steps and "
+             "the record lock shows as a second mutex; all interleavings with 1-2 activations at quota and quota-1), the slot counter "
+             "at full speed (`free slot`: T goroutines acquire / hold / release through "
              "acquireConnectionSlot and releaseConnectionSlot 60 000 times each - the windows inside them have no injectable call; "
              "`free race`: the same race through the real paths, tunnel close vs arriving connection at limit-1 occupancy with a "
              "swept delay, then arrivals until one is refused), the slot life cycle of the mapping handler (`slot` cases: the handler runs over a wrapper "
@@ -64,6 +67,9 @@ SPEC = {
         "WF: the initial occupancy is within the cap (capOk limit pre); limit 0 means unlimited for the session caps, the tunnel "
         "registry and the mapping handler (`> 0 &&` guard, extracted) and means 'nothing allowed' for the two conncode quotas (no guard "
         "in the source; the model follows the source)",
+        "record requests (usage update, revocation of a mapping): PARTIAL on the Lean side - C17_main_mutex covers them with all "
+        "requests on one mutex; with the record lock as a second mutex (what the driver runs) only decide-checked examples and the "
+        "witness C17_rmw_stale_witness exist; the source tie is the pair of skeleton pins (lock before read)",
         "code quota: a code is admitted for the observer when its by-code record exists (the request still writes the by-id copy "
         "and the index entry inside the critical section: `post = 2`); the count is modelled as the scan it is (one record read per "
         "index entry, counted iff active when read), revoked codes stay in the index; single storage faults are injected into "
